@@ -230,19 +230,46 @@ func ruleUpgradeAddress(ctx *Ctx, rule string) {
 			}
 		}
 	}
-	// (b) the size guard: on a struct list both sections must be at least as large as expected
+	// (b) the size guard: on a struct list both sections must be at least as large as
+	// expected. Decided on the normal form: every feasible path that returns an
+	// address for a composite list carries both comparisons (an `&&` in place of
+	// the `||` of the rejecting test, or a dropped disjunct, leaves a success
+	// path with only one of them).
 	lines, err := ssaq.Fingerprint(f)
+	okGuard2 := false
 	if err == nil {
+		okGuard, okGuard2 = true, true
+		nSucc := 0
 		for _, l := range lines {
-			if strings.Contains(l, "p0.size.DataSize < p2.DataSize") && strings.Contains(l, "newError") {
-				okGuard = true
+			i := strings.Index(l, " => ")
+			if i < 0 || !strings.HasSuffix(l, ", nil)") {
+				continue
+			}
+			atoms := strings.Split(l[:i], " && ")
+			if !ssaq.Consistent(atoms) {
+				continue // syntactic path with contradictory tests
+			}
+			has := func(a string) bool {
+				for _, x := range atoms {
+					if strings.TrimSpace(x) == a {
+						return true
+					}
+				}
+				return false
+			}
+			if !has("(1:listFlags & p0.flags) != 0:listFlags") {
+				continue
+			}
+			nSucc++
+			if !has("p2.DataSize <= p0.size.DataSize") {
+				okGuard = false
+			}
+			if !has("p2.PointerCount <= p0.size.PointerCount") {
+				okGuard2 = false
 			}
 		}
-	}
-	okGuard2 := false
-	for _, l := range lines {
-		if strings.Contains(l, "p0.size.PointerCount < p2.PointerCount") && strings.Contains(l, "newError") {
-			okGuard2 = true
+		if nSucc == 0 {
+			okGuard, okGuard2 = false, false
 		}
 	}
 	pos := q.Pos(f.Pos())
